@@ -20,9 +20,10 @@ run_demo() { ( cd $W && eval "${cmd#cd $W && }" ) >> $log 2>&1; }
 run_demo; base=$?
 git apply $S/$M.patch.diff || { echo "PATCH DOES NOT APPLY" | tee -a $log; exit 2; }
 run_demo; mut=$?
+rm -f $place   # the demo must not be part of the suite run
 pk=""; for c in $crates; do n=$(grep -m1 '^name' crates/$c/Cargo.toml | sed 's/.*"\(.*\)"/\1/'); pk="$pk -p $n"; done
 cargo nextest run $pk --offline --no-fail-fast >> $log 2>&1; suite=$?
-git checkout -q -- . ; rm -f $place
+git checkout -q -- .
 echo "[confirm] demo_without_patch_exit=$base demo_with_patch_exit=$mut crate_suites_with_patch_exit=$suite" | tee -a $log
 if [ $base -eq 0 ] && [ $mut -ne 0 ] && [ $suite -eq 0 ]; then
   D=/verif/seeded/$ID-$M; mkdir -p $D
